@@ -164,7 +164,7 @@ fn main() {
     while ng < o.n && attempts < o.n * 6 {
         attempts += 1;
         let allow_bang = r.chance(1, 4);
-        let cfg = if bang_always { gen_cfg_recovery(&mut r) } else { gen_cfg(&mut r, allow_bang) };
+        let cfg = if bang_always { gen_cfg_recovery(&mut r) } else { gen_cfg_indexed(&mut r, attempts - 1, allow_bang || attempts <= n_templates()) };
         if cfg.nterm > 8 {
             continue;
         }
